@@ -316,9 +316,9 @@ class Ctx:
                 if re.search(harness_loop_rx, m.group(1)):
                     us[m.group(1)] = harness_unwind
         us.update({'vp_memset.0': 600, 'vp_memcpy.0': 130, 'vp_memmove.0': 130, 'vp_memmove.1': 130, 'vp_dup.0': 66,
-              'vp_strlen.0': 66, 'vp_libc_memcmp.0': 66, 'vp_libc_memchr.0': 66,
+              'vp_strlen.0': 66, 'vp_libc_memcmp.0': 80, 'vp_libc_memchr.0': 66,
                    'vp_obj_rank.0': 30, 'vp_libc_strcmp.0': 260, 'vp_mul64x64.0': 12, 'vp_divrem64.0': 12,
-                   'vp_vec_cr_realloc_insert.0': 10, 'vp_vec_cr_realloc_insert.1': 10,
+                   'vp_vec_c_realloc_insert.0': 74, 'vp_vec_c_realloc_insert.1': 74, 'vp_vec_cr_realloc_insert.0': 10, 'vp_vec_cr_realloc_insert.1': 10,
                    'vp_string_empty.0': 130, 'vp_cap_puts.0': 110})
         us.update(unwindset or {})
         cmd += ['--unwindset', ','.join('%s:%d' % kv for kv in us.items())]
@@ -765,7 +765,7 @@ def run_parallel(jobs, workers=None):
 
 def finish(ctx, level_text=''):
     for k in ctx.known:
-        log('KNOWN-FINDING: property=%s %s' % (ctx.prop, k))
+        log('KNOWN-FINDING: property=%s %s' % (ctx.prop, re.sub(r'^property=\S+\s+', '', k)))
     write_evidence(ctx, level_text)
     n_ob = len(ctx.obligations)
     n_dis = sum(1 for o in ctx.obligations if o['verdict'] == 'discharged')
